@@ -16,7 +16,7 @@ class DI:
 		"""インスタンスを生成"""
 		self.__instances: dict[type, Any] = {}
 		self.__injectors: dict[type, Injector[Any]] = {}
-		self.__invocations: dict[str, dict[str, type]] = {}
+		self.__invocations: dict[Injector[Any], dict[str, type]] = {}
 
 	@duck_typed(Locator)
 	def can_resolve(self, symbol: type) -> bool:
@@ -154,13 +154,11 @@ class DI:
 			* このメソッドを通して生成したインスタンスはキャッシュされず、毎回生成される
 			```
 		"""
-		fullyname = to_fullyname(factory)
-		found = fullyname in self.__invocations
-		if not found:
+		if factory not in self.__invocations:
 			annotated = self.__to_annotated(factory)
-			self.__invocations[fullyname] = self.__pluck_annotations(annotated)
+			self.__invocations[factory] = self.__pluck_annotations(annotated)
 
-		annos = self.__invocations[fullyname]
+		annos = self.__invocations[factory]
 		curried_args: list[type] = []
 		for anno in annos.values():
 			if not self.can_resolve(anno):
@@ -168,8 +166,7 @@ class DI:
 
 			curried_args.append(self.resolve(anno))
 
-		if not found:
-			self.__assert_invoke(factory, annos, curried_args, *remain_args)
+		self.__assert_invoke(factory, annos, curried_args, *remain_args)
 
 		return factory(*curried_args, *remain_args)
 
@@ -212,8 +209,8 @@ class DI:
 		"""
 		# XXX ジェネリック型の場合isinstanceで比較できないため、オリジナルの型を期待値として抽出
 		expect_types = [getattr(expect, '__origin__', expect) for expect in list(annos.values())[len(curried_args):]]
-		allow_types = [type(arg) for index, arg in enumerate(remain_args) if isinstance(arg, expect_types[index])]
-		if len(expect_types) != len(allow_types):
+		allow_types = [type(arg) for index, arg in enumerate(remain_args) if index < len(expect_types) and isinstance(arg, expect_types[index])]
+		if len(expect_types) != len(remain_args) or len(expect_types) != len(allow_types):
 			raise ValueError(f'Mismatch invoke arguments. factory: {injector}, expect: {expect_types}, actual: {[type(arg) for arg in remain_args]}')
 
 	def _clone(self) -> Self:
